@@ -425,10 +425,22 @@ theorem parseLoop_nofault (d : Dicts) : ∀ (n : Nat) (mode : Mode) (fields : Li
   intro n
   induction n with
   | zero =>
-    intro mode fields idx c hn _ _ w hw
+    intro mode fields idx c hn hh hm w hw
     have : ¬ idx < fields.length := by omega
     rw [parseLoop] at hw
-    simp [this, Fixes.cur] at hw
+    simp only [this, dite_false, outOfFields, Fixes.cur, if_true] at hw
+    cases mode with
+    | main => cases hw
+    | grp dmStart tags gf =>
+      simp only [] at hw
+      obtain ⟨c1, h1, h1h⟩ := addDm_ok fields dmStart idx c hm
+      rw [h1] at hw
+      simp only [] at hw
+      split at hw
+      · split at hw
+        · exact finishParse_nofault fields c1 (by rw [h1h]; exact hh) w hw
+        · cases hw
+      · cases hw
   | succ n ih =>
     intro mode fields idx c hn hh hm
     have hidx : idx < fields.length := by omega
@@ -677,6 +689,11 @@ theorem parseLoop_step' (d : Dicts) (mode : Mode) (fields : List TagValue) (idx 
       | some m => exact .next m _ c1 hl h1 (h2 m rfl) rfl
       | none => exact after_switch' d fields _ idx _ c1 hl h1
 
+theorem addDm_eq' (fields : List TagValue) (dmStart idx : Nat) (c : PCore) (h : dmStart < fields.length) :
+    addDm fields dmStart idx c = .ok { c with body := c.body.add (fields[dmStart]).tag (.view dmStart (idx - dmStart)) } := by
+  unfold addDm
+  simp [idxR, List.getElem?_eq_getElem h]
+
 theorem finishParse_secs (fields : List TagValue) (c : PCore) (h : SecsOK fields c) (r : List TagValue × PCore)
     (hr : finishParse fields c = .ok r) : SecsOK r.1 r.2 := by
   simp only [finishParse] at hr
@@ -690,21 +707,37 @@ theorem finishParse_secs (fields : List TagValue) (c : PCore) (h : SecsOK fields
   · cases hr
 
 theorem parseLoop_secs (d : Dicts) : ∀ (n : Nat) (mode : Mode) (fields : List TagValue) (idx : Nat) (c : PCore),
-    fields.length - idx = n → SecsOK fields c → ModeOK' idx mode → ∀ r, parseLoop Fixes.cur d mode fields idx c = .ok r → SecsOK r.1 r.2 := by
+    fields.length - idx = n → idx ≤ fields.length → SecsOK fields c → ModeOK' idx mode → ∀ r, parseLoop Fixes.cur d mode fields idx c = .ok r → SecsOK r.1 r.2 := by
   intro n
   induction n with
   | zero =>
-    intro mode fields idx c hn _ _ r hr
+    intro mode fields idx c hn hle hh hm r hr
     have : ¬ idx < fields.length := by omega
     rw [parseLoop] at hr
-    simp [this, Fixes.cur] at hr
+    simp only [this, dite_false, outOfFields, Fixes.cur, if_true] at hr
+    cases mode with
+    | main => cases hr
+    | grp dmStart tags gf =>
+      simp only [] at hr
+      have hdm : dmStart < idx := hm
+      by_cases hlt : dmStart < fields.length
+      · rw [addDm_eq' fields dmStart idx c hlt] at hr
+        simp only [] at hr
+        split at hr
+        · split at hr
+          · exact finishParse_secs fields ({ c with body := c.body.add (fields[dmStart]).tag (.view dmStart (idx - dmStart)) } : PCore)
+              ⟨hh.h, hh.b.add _ dmStart (idx - dmStart) (by omega) (by omega), hh.t⟩ r hr
+          · cases hr
+        · cases hr
+      · unfold addDm at hr
+        simp [idxR, List.getElem?_eq_none_iff.2 (by omega : fields.length ≤ dmStart)] at hr
   | succ n ih =>
-    intro mode fields idx c hn hh hm r hr
+    intro mode fields idx c hn _ hh hm r hr
     have hidx : idx < fields.length := by omega
     cases parseLoop_step' d mode fields idx c hh hm hidx with
     | err e h => rw [h] at hr; cases hr
     | finish fields' c' hh' h => rw [h] at hr; exact finishParse_secs fields' c' hh' r hr
-    | next m' fields' c' hl hh' hm' h => rw [h] at hr; exact ih m' fields' (idx + 1) c' (by omega) hh' hm' r hr
+    | next m' fields' c' hl hh' hm' h => rw [h] at hr; exact ih m' fields' (idx + 1) c' (by omega) (by omega) hh' hm' r hr
 
 
 theorem ViewsOK.ofHdr {fields : List TagValue} {fm : FieldMap} (h : HdrOK fields fm) : ViewsOK fields fm := by
@@ -746,7 +779,7 @@ theorem parseMessage_views (d : Dicts) (w : Bytes) (m : Message) (hm : parseMess
             rw [hl] at hm
             obtain ⟨fs, c'⟩ := r
             injection hm with hm; subst hm
-            have := parseLoop_secs d _ .main _ 3 _ rfl ⟨hh, ViewsOK.empty _ _, ViewsOK.empty _ _⟩ trivial (fs, c') hl
+            have := parseLoop_secs d _ .main _ 3 _ rfl (by simp at hi3 ⊢; omega) ⟨hh, ViewsOK.empty _ _, ViewsOK.empty _ _⟩ trivial (fs, c') hl
             exact ⟨ViewsOK.ofHdr this.h, this.b, this.t⟩
 
 /-! ### the getters never fault on such maps -/
